@@ -434,7 +434,7 @@ func (c *ctx) exhaustive(tees []int) {
 		{list(it(1, false), it(0, false))},
 		{list(it(0, false), it(0, true))},
 		{list(item{id: 1, req: true, ok: false})},
-		{u('E')}, {u('W'), list(it(0, true))}, {u('M')}, {u('P')}, {hdr(true)}, {u('O')}, {},
+		{u('E')}, {u('W'), list(it(0, true))}, {u('M')}, {u('P')}, {hdr(true)}, {u('O')}, {u('F')}, {u('G')}, {hdr(false)}, {},
 	}
 	answers := [][]unit{{u('P')}, {u('F')}, {u('E')}, {u('G')}, {u('O')}, {u('W'), u('P')}, {u('M')}, {hdr(true)}, {list()}, {}}
 	prots := [][]pu{
@@ -449,7 +449,7 @@ func (c *ctx) exhaustive(tees []int) {
 	if r.Quick() {
 		prots = prots[:5]
 	}
-	hdrs := [][]unit{{hdr(true)}, {u('W'), hdr(true)}, {hdr(false)}, {u('E')}, {}}
+	hdrs := [][]unit{{hdr(true)}, {u('W'), hdr(true)}, {hdr(false)}, {u('E')}, {}, {list()}, {u('P')}, {u('F')}, {u('G')}, {u('O')}, {u('M')}}
 	n := 0
 	for hi, h := range hdrs {
 		for _, f := range firsts {
